@@ -99,6 +99,8 @@ type FuncContract struct {
 	Extern   bool
 	Params   []QVar // for extern/spec
 	Results  []QVar
+	// Guards: static guard clauses (guards.go)
+	Guards []*GuardClause
 	// MoreFiles: further contract files that add clauses to this function
 	MoreFiles []string
 }
@@ -147,7 +149,7 @@ func NewContractSet() *ContractSet {
 }
 
 var clauseKeywords = map[string]bool{
-	"func": true, "extern": true, "spec": true, "axiom": true, "type": true, "lemma": true,
+	"func": true, "extern": true, "spec": true, "axiom": true, "type": true, "lemma": true, "guarded": true, "go_inline": true,
 	"requires": true, "ensures": true, "loop": true, "nullable": true, "at": true,
 	"ghost": true, "assigns": true, "modular": true, "inline": true, "trusted": true,
 	"mode": true, "alloc_bound": true, "pure": true, "protected_by": true, "immutable": true,
@@ -449,6 +451,11 @@ func (cs *ContractSet) ParseContractFile(path string, pkgPath string) error {
 					}
 					ac.Clause = c
 				case "stop":
+					// "stop [Cnn]": the cut applies only while property Cnn is being checked (contract blocks of one
+					// function are merged across properties; an unscoped stop cuts every property's exploration)
+					if t := strings.Trim(strings.TrimSpace(r3), "[]"); t != "" {
+						ac.Clause.Tag = t
+					}
 				default:
 					return fmt.Errorf("%s:%d: unknown at-kind %q", path, l.no, w)
 				}
@@ -470,6 +477,12 @@ func (cs *ContractSet) ParseContractFile(path string, pkgPath string) error {
 					cur.Assigns = append(cur.Assigns, strings.TrimSpace(p))
 				}
 				cur.Flags["assigns"] = "1"
+			case "guarded":
+				g, err := parseGuardClause(rest, path, l.no)
+				if err != nil {
+					return fmt.Errorf("%s:%d: %v", path, l.no, err)
+				}
+				cur.Guards = append(cur.Guards, g)
 			case "trusted":
 				cur.Flags["trusted"] = "1"
 				cs.Trusted = append(cs.Trusted, fmt.Sprintf("trusted contract %s (%s:%d)", cur.Key, path, l.no))
